@@ -744,6 +744,10 @@ func (c *Ctx) exploreJSON(w *jsonWriterFn, entry *jstate, helpers map[types.Obje
 						s.errPath = true
 					}
 				}
+				// `v, ok := helper(…); if !ok { return }` where the helper returns false exactly after it ran the error terminator
+				if c.returnAfterReportedError(w.fi, x) {
+					s.errPath = true
+				}
 			case *ast.Ident:
 				// `for i, x := range xs`: the index of a range loop starts at 0 and is positive on later iterations —
 				// modelled by the loop head: first entry 0, re-entry >0 (see below)
@@ -1188,3 +1192,110 @@ func (c *Ctx) resetConstructed(info *types.Info, n ast.Node, s *jstate) {
 }
 
 func init() { register(ruleI1) }
+
+// returnAfterReportedError: ret is a statement of the body of `if !ok { … }`, ok being the i-th result of a call to a function of
+// the same package in which every `return …, false` directly follows a call of the error terminator (onErr) and every other
+// return yields the constant true at that position.
+func (c *Ctx) returnAfterReportedError(fi *FuncInfo, ret *ast.ReturnStmt) bool {
+	info := fi.Pkg.TypesInfo
+	var guard *ast.IfStmt
+	ast.Inspect(fi.Decl.Body, func(n ast.Node) bool {
+		if is, ok := n.(*ast.IfStmt); ok {
+			for _, st := range is.Body.List {
+				if st == ast.Stmt(ret) {
+					guard = is
+				}
+			}
+		}
+		return true
+	})
+	if guard == nil {
+		return false
+	}
+	ue, ok := ast.Unparen(guard.Cond).(*ast.UnaryExpr)
+	if !ok || ue.Op != token.NOT {
+		return false
+	}
+	id, ok := ast.Unparen(ue.X).(*ast.Ident)
+	if !ok {
+		return false
+	}
+	obj := info.ObjectOf(id)
+	var helper *types.Func
+	idx := -1
+	ast.Inspect(fi.Decl.Body, func(n ast.Node) bool {
+		as, ok := n.(*ast.AssignStmt)
+		if !ok || len(as.Rhs) != 1 {
+			return true
+		}
+		call, ok := ast.Unparen(as.Rhs[0]).(*ast.CallExpr)
+		if !ok {
+			return true
+		}
+		for i, lh := range as.Lhs {
+			if l, ok := lh.(*ast.Ident); ok && info.ObjectOf(l) == obj {
+				if hf, ok := calleeObj(info, call).(*types.Func); ok && hf.Pkg() == fi.Pkg.Types {
+					helper, idx = hf, i
+				}
+			}
+		}
+		return true
+	})
+	if helper == nil {
+		return false
+	}
+	hd := c.declOf(fi.Pkg, helper)
+	if hd == nil || hd.Body == nil {
+		return false
+	}
+	okAll, nFalse := true, 0
+	var visit func(list []ast.Stmt)
+	check := func(list []ast.Stmt, i int, r *ast.ReturnStmt) {
+		if idx >= len(r.Results) {
+			okAll = false
+			return
+		}
+		rid, isID := ast.Unparen(r.Results[idx]).(*ast.Ident)
+		switch {
+		case isID && rid.Name == "true":
+		case isID && rid.Name == "false":
+			nFalse++
+			reported := false
+			if i > 0 {
+				if es, ok := list[i-1].(*ast.ExprStmt); ok {
+					if call, ok := es.X.(*ast.CallExpr); ok {
+						if o := calleeObj(fi.Pkg.TypesInfo, call); o != nil && o.Name() == "onErr" {
+							reported = true
+						}
+					}
+				}
+			}
+			if !reported {
+				okAll = false
+			}
+		default:
+			okAll = false
+		}
+	}
+	visit = func(list []ast.Stmt) {
+		for i, st := range list {
+			if r, ok := st.(*ast.ReturnStmt); ok {
+				check(list, i, r)
+			}
+		}
+	}
+	ast.Inspect(hd.Body, func(n ast.Node) bool {
+		switch x := n.(type) {
+		case *ast.FuncLit:
+			return false
+		case *ast.BlockStmt:
+			visit(x.List)
+		case *ast.CaseClause:
+			visit(x.Body)
+		case *ast.CommClause:
+			visit(x.Body)
+		}
+		return true
+	})
+	return okAll && nFalse > 0
+}
